@@ -149,6 +149,14 @@ std::string runCase(const Case& k, vh::Stats& st, bool& inconclusive, Value& tai
     std::set<std::string> seen;
     for (const Root& rt : k.r) {
         idx++;
+        if (rt.interlude && rt.cls.rfind("clear:", 0) == 0) {
+            ss.e.send(rt.cls.substr(6));
+            ss.e.send("isready");
+            if (ss.e.waitLine("readyok", 60000) < 0) { if (ss.e.tryReap()) { err = "engine died after " + rt.cls.substr(6) + ": " + ss.e.exitDesc(); break; } inconclusive = true; break; }
+            resident.clear();
+            st.cls("hash cleared between two tablebase roots");
+            continue;
+        }
         if (rt.interlude) {
             us::Result r = ss.goInfinite(rt.fen, [](const std::string& l) { return l.rfind("info depth 2", 0) == 0; }, 2000, gAnswerMs);
             if (r.died) { err = r.why; break; }
@@ -249,6 +257,8 @@ int main(int argc, char** argv) {
             for (int i = 0; i < n && (i < 3 || !c.empty()); i++) {
                 if (i > 0 && c.chance(1, 4)) cls = pickClass();
                 if (i > 0 && c.chance(1, 14)) { int m = c.range(5, 6); Root il = genInterlude(c); for (int j = 0; j < m; j++) k.r.push_back(il); }
+                // the hash table (which hosts the on-demand table) is cleared between two roots: the next root must regenerate
+                if (i > 0 && c.chance(1, 5)) { Root cl; cl.interlude = true; cl.cls = c.flip() ? "clear:ucinewgame" : "clear:setoption name Clear Hash"; k.r.push_back(cl); }
                 Root r;
                 if (genRoot(c, cls, r)) k.r.push_back(r); else st.discarded++;
             }
